@@ -604,6 +604,13 @@ def r5(ctx, chk):
         cat, detail = c20.classify(ctx, heap, f, node, kind, target)
         if cat not in ("lazy-memo", "keyed-memo", "FINDING"):
             continue
+        if cat == "FINDING" and detail.startswith("memo on the class-level table"):
+            n += 1
+            chk.ob(rule, "%s: what is memoised in `%s` is determined by its key" % (f.qual, c20.norm_target(target, ctx, f)), False,
+                   detail + ": which instance filled the entry first depends on the calls made before",
+                   key={"function": f.key, "target": c20.norm_target(target, ctx, f)}, file=f.file, function=f.qual, line=node.lineno,
+                   text=" ".join(ast.unparse(node).split())[:120])
+            continue
         if cat == "FINDING" and not detail.startswith("lazily cached"):
             continue
         n += 1
